@@ -1,0 +1,42 @@
+//go:build verif
+
+// Contracts for the deductive verifier in /verif (govc). This file contains no code: with the
+// build tag off it is not part of the package, with it on it adds nothing to the build.
+package abi
+
+//@ import common "github.com/ethereum/go-ethereum/common"
+//@ import big "math/big"
+
+// precompiled_info.go — TRUSTED SUMMARIES (listed in the evidence's trusted base) of go-ethereum accounts/abi
+// (abi.Arguments.Unpack / Pack, type.go, unpack.go) applied to the embedded ABI documents (erc20.abi.json ...):
+// the Go types of the unpacked values are fixed by the ABI types of the method's inputs
+// (address -> common.Address, uint256 -> *big.Int in [0, 2^256), see accounts/abi/unpack.go toGoType / ReadInteger).
+// The decoded values are named by uninterpreted functions of the call data.
+//@ ghost func abiArgAddr(input bytes, i int) common.Address
+//@ ghost func abiArgUint(input bytes, i int) int
+//@ ghost func abiSelectorOk(method string, input bytes) bool
+//@ ghost func abiEncUint(v int) bytes
+//@ ghost func abiEncBool(v bool) bytes
+//@ ghost func abiEncString(v string) bytes
+
+
+//@ func (s CustomPrecompiledContractInfo) UnpackMethodInput(methodName string, fullInput []byte) (ips []interface{}, err error)
+//@   assumed
+//@   modifies nothing
+//@   ensures (err == nil && (methodName == "name" || methodName == "symbol" || methodName == "decimals" || methodName == "totalSupply")) ==> len(ips) == 0
+//@   ensures (err == nil && methodName == "balanceOf") ==> (len(ips) == 1 && typeof(ips[0]) == type(common.Address) && unbox(ips[0], type(common.Address)) == abiArgAddr(bytes(fullInput), 0))
+//@   ensures (err == nil && (methodName == "transfer" || methodName == "approve" || methodName == "burnFrom")) ==> (len(ips) == 2 && typeof(ips[0]) == type(common.Address) && unbox(ips[0], type(common.Address)) == abiArgAddr(bytes(fullInput), 0) && typeof(ips[1]) == type(*big.Int) && unbox(ips[1], type(*big.Int)) != nil && fresh(unbox(ips[1], type(*big.Int))) && bigval[unbox(ips[1], type(*big.Int))] == abiArgUint(bytes(fullInput), 1) && 0 <= abiArgUint(bytes(fullInput), 1) && abiArgUint(bytes(fullInput), 1) < pow2(256))
+//@   ensures (err == nil && methodName == "transferFrom") ==> (len(ips) == 3 && typeof(ips[0]) == type(common.Address) && unbox(ips[0], type(common.Address)) == abiArgAddr(bytes(fullInput), 0) && typeof(ips[1]) == type(common.Address) && unbox(ips[1], type(common.Address)) == abiArgAddr(bytes(fullInput), 1) && typeof(ips[2]) == type(*big.Int) && unbox(ips[2], type(*big.Int)) != nil && fresh(unbox(ips[2], type(*big.Int))) && bigval[unbox(ips[2], type(*big.Int))] == abiArgUint(bytes(fullInput), 2) && 0 <= abiArgUint(bytes(fullInput), 2) && abiArgUint(bytes(fullInput), 2) < pow2(256))
+//@   ensures (err == nil && methodName == "allowance") ==> (len(ips) == 2 && typeof(ips[0]) == type(common.Address) && unbox(ips[0], type(common.Address)) == abiArgAddr(bytes(fullInput), 0) && typeof(ips[1]) == type(common.Address) && unbox(ips[1], type(common.Address)) == abiArgAddr(bytes(fullInput), 1))
+//@   ensures (err == nil && methodName == "burn") ==> (len(ips) == 1 && typeof(ips[0]) == type(*big.Int) && unbox(ips[0], type(*big.Int)) != nil && fresh(unbox(ips[0], type(*big.Int))) && bigval[unbox(ips[0], type(*big.Int))] == abiArgUint(bytes(fullInput), 0) && 0 <= abiArgUint(bytes(fullInput), 0) && abiArgUint(bytes(fullInput), 0) < pow2(256))
+//@   panics only_if len(fullInput) < 4 || !abiSelectorOk(methodName, bytes(fullInput))
+
+// Output encoding: one static value per ERC-20 method (uint256 / bool / string / uint8).
+//@ func (s CustomPrecompiledContractInfo) PackMethodOutput(methodName string, args []any) (bz []byte, err error)
+//@   assumed
+//@   modifies nothing
+//@   ensures (err == nil && len(args) == 1 && typeof(args[0]) == type(*big.Int)) ==> bytes(bz) == abiEncUint(bigval[unbox(args[0], type(*big.Int))])
+//@   ensures (err == nil && len(args) == 1 && typeof(args[0]) == type(bool)) ==> bytes(bz) == abiEncBool(unbox(args[0], type(bool)))
+//@   ensures (err == nil && len(args) == 1 && typeof(args[0]) == type(string)) ==> bytes(bz) == abiEncString(unbox(args[0], type(string)))
+//@   ensures (err == nil && len(args) == 1 && typeof(args[0]) == type(uint8)) ==> bytes(bz) == abiEncUint(unbox(args[0], type(uint8)))
+//@   ensures err == nil ==> fresh(base(bz))
